@@ -19,6 +19,7 @@ mod civ;
 mod tzcorpus;
 mod tzd;
 mod tzread;
+mod zd;
 
 use common::Args;
 use std::path::PathBuf;
@@ -59,6 +60,8 @@ fn dispatch(driver: &str, a: &Args) {
         "c01" => c01::run(&a),
         "c02" => c02::run(&a),
         "c03" => tzd::run_c03(&a),
+        "c07" => civ::run_c07(&a),
+        "c06" | "c07z" | "c10z" | "c13" => zd::run_zoned(&a, driver),
         "c08" => civ::run_c08(&a),
         "c10" => civ::run_c10(&a),
         "c04" => tzd::run_c04(&a),
